@@ -9,7 +9,7 @@ import (
 func init() {
 	reg("C34", Meta{
 		Technique:   "must-guard reachability on SSA (record only behind recovered-overlay == claimed overlay), provenance of the four signed inputs, signer/verifier digest agreement, callers store/return only verified records",
-		Explanation: "C34 (authenticated peer address records), structural clauses: (G1) aurora.ParseAddress returns a non-nil record only behind successful key recovery, overlay derivation and bytes.Equal(recovered overlay, claimed overlay); (P1) the digest given to crypto.Recover is generateSignData(underlay, overlay, networkID) of exactly the three parameters with the signature parameter as first argument, the overlay is derived from the recovered key and the same networkID, and generateSignData lets all three inputs reach its result; (A1) NewAddress signs generateSignData(underlay bytes, overlay bytes, networkID) — the same function; (G2) handshake.parseCheckAck, routetab.saveUnderlay and routetab.FindUnderlay store into the address book / return only the record ParseAddress produced, behind err==nil, with the service's network id. Not decided: ECDSA recovery and overlay hashing themselves.",
+		Explanation: "C34 (authenticated peer address records), structural clauses: (G1) aurora.ParseAddress returns a non-nil record only behind successful key recovery, overlay derivation and bytes.Equal(recovered overlay, claimed overlay); (P1) the digest given to crypto.Recover is generateSignData(underlay, overlay, networkID) of exactly the three parameters with the signature parameter as first argument, the overlay is derived from the recovered key and the same networkID, and generateSignData lets all three inputs reach its result; (W1) generateSignData assembles its result in call-private memory (no append into a slice held in a package-level variable, whose shared backing array would let concurrent verifications hash each other's bytes); (A1) NewAddress signs generateSignData(underlay bytes, overlay bytes, networkID) — the same function; (G2) handshake.parseCheckAck, routetab.saveUnderlay and routetab.FindUnderlay store into the address book / return only the record ParseAddress produced, behind err==nil, with the service's network id. Not decided: ECDSA recovery and overlay hashing themselves.",
 		Assumptions: []string{"crypto.Recover returns the key that signed the digest", "crypto.NewOverlayAddress is injective in (key, networkID) up to hash collisions"},
 	}, c34)
 }
@@ -141,6 +141,32 @@ func c34(r *core.Run) {
 	})
 	r.Check("C34.P1", core.Key("C34.P1", gsd, "all inputs in digest"), gsd.Pos(), okAll,
 		"underlay, overlay and network id all flow into the signed data", "one of underlay / overlay / networkID no longer reaches the signed data")
+
+	// W1: the signed data is built in memory private to the call: no append in pkg/aurora's
+	// digest construction writes into a slice loaded from a package-level variable (shared
+	// backing array ⇒ concurrent verifications hash each other's bytes)
+	nApp := 0
+	core.EachInstr(gsd, func(_ *ssa.BasicBlock, _ int, in ssa.Instruction) {
+		c, ok := in.(*ssa.Call)
+		if !ok {
+			return
+		}
+		if _, isApp := isBuiltinCall(c, "append"); !isApp {
+			return
+		}
+		nApp++
+		shared := core.DerivesFrom(c.Call.Args[0], func(x ssa.Value) bool {
+			p, ok := core.LoadedFrom(x)
+			if !ok {
+				return false
+			}
+			_, isG := p.(*ssa.Global)
+			return isG
+		}, nil)
+		r.Check("C34.W1", core.Key("C34.W1", gsd, "sign data built in call-private memory"), c.Pos(), !shared,
+			"the bytes that are signed / verified are assembled in a buffer private to the call", "the sign data is appended to a slice held in a package-level variable: concurrent handshakes overwrite each other's digest input, so a signature is checked against another record's fields")
+	})
+	r.Floor("C34.W1", "appends building the sign data", nApp, 2)
 
 	// A1 NewAddress signs the same function
 	okSign := false
